@@ -459,7 +459,7 @@ pub fn feature_cases() -> Vec<DbDesc> {
 
 fn hostile(thorough: bool) -> BoxedStrategy<Hostile> {
     let base = prop_oneof![
-        (any::<bool>(), 0u8..3).prop_map(|(v2, endpoint)| Hostile::TcpUnknownProduct { v2, endpoint }),
+        (any::<bool>(), prop_oneof![1 => 0u8..3, 2 => 3u8..24]).prop_map(|(v2, endpoint)| Hostile::TcpUnknownProduct { v2, endpoint }),
         any::<bool>().prop_map(|v2| Hostile::TcpUnknownEndpoint { v2 }),
         (0u8..8).prop_map(|variant| Hostile::TcpWrongArity { variant }),
         (0u8..4).prop_map(|variant| Hostile::TcpEmpty { variant }),
